@@ -22,7 +22,7 @@ MANIFEST = {
              'shipped policies"). Behaviour with assert_limits = false for RESGreedy relies on a panic helper and is not claimed.'),
 }
 EXPLANATION = 'Per-unit share terms (arm tables) of the distribution functions, with sign and bound obligations per arm.'
-RULES = ['C10-1.conservation', 'C10-2.proportional', 'C10-3.resgreedy', 'C10-4.regen', 'C10-5.dynbrake', 'C10-6.coverage', 'C10-7.unit']
+RULES = ['C10-1.conservation', 'C10-2.proportional', 'C10-3.resgreedy', 'C10-4.regen', 'C10-5.dynbrake', 'C10-6.coverage', 'C10-7.unit', 'C10-8.limits']
 ASSUMPTIONS = ['unit limits >= 0', 'consist limits > 0 where divided by', 'drivetrain rating >= regeneration share of the unit']
 
 A = [(r'pwr_out_max$', 'nonneg'), (r'pwr_regen_max$', 'nonneg'), (r'pwr_out_max_reves$', 'pos'), (r'pwr_out_max_non_reves$', 'pos'),
@@ -55,6 +55,11 @@ def run(ctx):
     # for every powertrain type (shared with C01-3; otherwise the units' recorded powers no longer sum to the request)
     from .C01 import loco_pwr_out_arms
     loco_pwr_out_arms(ctx, 'C10-7.unit')
+    # the limits the split honours are the consist's published ones: sums over the units of the same-named unit limit, and the
+    # battery capability per powertrain type that decides how much is left for the fuel-burning units (clauses of C09-3, shared)
+    from .common import RuleProxy
+    from . import C09
+    C09.chains(RuleProxy(ctx, {'C09-3.chain': 'C10-8.limits'}))
 
 
 def _unit(lvl, *fields):
